@@ -32,12 +32,25 @@ const (
 	tDone
 )
 
+// mOp is one operation: the membership of a task in one invocation. A task
+// has one operation per invocation that requested its action while it was
+// in flight (in-flight deduplication); the first one is created together
+// with the task.
+type mOp struct {
+	t    *mTask
+	path []string
+	prio int32
+	at   time.Time // time of the Execute call that created the operation
+	// attached: the operation joined its task while the task was already
+	// executing.
+	attached bool
+}
+
 type mTask struct {
 	hash       string
 	inst       string
 	platform   string
-	path       []string
-	prio       int32
+	ops        []*mOp // in order of arrival; never empty
 	dur        time.Duration
 	queuedAt   time.Time
 	scIdx      int
@@ -47,7 +60,53 @@ type mTask struct {
 	worker     string
 	handSet    []string
 	letter     string
+	share      string // name of the shared (deduplicatable) action, "" for a one-off action
 }
+
+func (t *mTask) opAt(path []string) *mOp {
+	for _, o := range t.ops {
+		if pathStr(o.path) == pathStr(path) {
+			return o
+		}
+	}
+	return nil
+}
+
+// under reports whether the task has an operation in the invocation path or
+// in one nested below it.
+func (t *mTask) under(path []string) bool {
+	for _, o := range t.ops {
+		if hasPrefixPath(o.path, path) {
+			return true
+		}
+	}
+	return false
+}
+
+// commonPath is the deepest invocation all operations of the task are part
+// of ("lowest common ancestor").
+func (t *mTask) commonPath() []string {
+	p := append([]string(nil), t.ops[0].path...)
+	for _, o := range t.ops[1:] {
+		p = p[:commonPrefixLen(p, o.path)]
+	}
+	return p
+}
+
+func (t *mTask) paths() string {
+	var l []string
+	for _, o := range t.ops {
+		l = append(l, pathStr(o.path))
+	}
+	return "[" + strings.Join(l, " ") + "]"
+}
+
+// span is a set-valued point in time: the exact value is known to lie in
+// {lo, hi} (lo <= hi). Used where the statement does not say which of two
+// instants counts.
+type span struct{ lo, hi time.Time }
+
+func at(t time.Time) span { return span{t, t} }
 
 type mWorker struct {
 	name        string
@@ -57,7 +116,7 @@ type mWorker struct {
 	task        *mTask
 	hasLast     bool
 	lastPath    []string
-	stick       []time.Time
+	stick       []span // per level: when the worker started serving its invocation of that level
 	terminating bool
 	hasCleanup  bool
 	cleanupAt   time.Time
@@ -71,8 +130,8 @@ type mScq struct {
 	drains       map[string]map[string]string
 	hasRemoval   bool
 	removalAt    time.Time
-	queued       []*mTask
-	nodes        map[string]time.Time // invocation path -> last time an operation of it was started
+	queued       []*mOp          // operations of queued tasks, in order of arrival
+	nodes        map[string]span // invocation path -> last time an operation of it was started
 }
 
 type mPq struct {
@@ -96,6 +155,10 @@ type model struct {
 	// of the operation it would hand out next (only used to classify a
 	// violation).
 	loosePrio bool
+	// ignoreAttached makes execCount() disregard operations that joined an
+	// executing task through in-flight deduplication (only used to classify
+	// a violation).
+	ignoreAttached bool
 	// violations detected while updating the model are reported through fail.
 	fail func(prop, fp, format string, args ...any)
 }
@@ -182,7 +245,7 @@ func (m *model) addPq(k pqKey, limits []time.Duration) *mPq {
 
 func (m *model) addScq(pq *mPq, sc uint32, mayBeRemoved bool) *mScq {
 	q := &mScq{key: scqKey{pq.key, sc}, mayBeRemoved: mayBeRemoved, workers: map[string]*mWorker{},
-		drains: map[string]map[string]string{}, nodes: map[string]time.Time{}}
+		drains: map[string]map[string]string{}, nodes: map[string]span{}}
 	pq.scqs[sc] = q
 	return q
 }
@@ -273,8 +336,8 @@ func (m *model) expire(now time.Time) {
 			m.gc(q)
 		} else {
 			q := bestQ
-			for _, t := range q.queued {
-				t.state = tDone
+			for _, o := range q.queued {
+				o.t.state = tDone
 			}
 			q.queued = nil
 			pq := m.pqs[q.key.pqKey]
@@ -295,13 +358,13 @@ func (m *model) gc(q *mScq) {
 			p = strings.Split(ps, "/")
 		}
 		alive := false
-		for _, t := range q.queued {
-			if hasPrefixPath(t.path, p) {
+		for _, o := range q.queued {
+			if hasPrefixPath(o.path, p) {
 				alive = true
 			}
 		}
 		for _, w := range q.workers {
-			if w.task != nil && hasPrefixPath(w.task.path, p) {
+			if w.task != nil && w.task.under(p) {
 				alive = true
 			}
 			if w.hasLast && hasPrefixPath(w.lastPath, p) {
@@ -318,8 +381,21 @@ func (m *model) touchNodes(q *mScq, path []string, started bool) {
 	for i := 1; i <= len(path); i++ {
 		ps := pathStr(path[:i])
 		if _, ok := q.nodes[ps]; !ok || started {
-			q.nodes[ps] = m.now
+			q.nodes[ps] = at(m.now)
 		}
+	}
+}
+
+// attachNodes records that an operation of invocation path was attached to
+// a task that is already executing: whether that counts as the invocation
+// (and the invocations it is nested in) being "served" now is left open.
+func (m *model) attachNodes(q *mScq, path []string) {
+	m.touchNodes(q, path, false)
+	for i := 1; i <= len(path); i++ {
+		ps := pathStr(path[:i])
+		n := q.nodes[ps]
+		n.hi = m.now
+		q.nodes[ps] = n
 	}
 }
 
@@ -380,8 +456,16 @@ func cmpScore(ea int, pa int32, eb int, pb int32) int {
 func (m *model) execCount(q *mScq, path []string) int {
 	n := 0
 	for _, w := range q.workers {
-		if w.task != nil && hasPrefixPath(w.task.path, path) {
-			n++
+		// Executing WORKERS: a worker counts once, however many
+		// operations of the invocation its task carries.
+		if w.task == nil {
+			continue
+		}
+		for _, o := range w.task.ops {
+			if hasPrefixPath(o.path, path) && !(m.ignoreAttached && o.attached) {
+				n++
+				break
+			}
 		}
 	}
 	return n
@@ -390,21 +474,12 @@ func (m *model) execCount(q *mScq, path []string) int {
 // bestDirect returns the operations queued directly in the invocation that
 // may go first: priority, then longest expected duration, then oldest; ties
 // on all three are left open.
-func bestDirect(direct []*mTask) []*mTask {
-	before := func(a, b *mTask) bool {
-		if a.prio != b.prio {
-			return a.prio < b.prio
-		}
-		if a.dur != b.dur {
-			return a.dur > b.dur
-		}
-		return a.queuedAt.Before(b.queuedAt)
-	}
-	var res []*mTask
+func bestDirect(direct []*mOp) []*mOp {
+	var res []*mOp
 	for _, t := range direct {
 		ok := true
 		for _, o := range direct {
-			if o != t && before(o, t) {
+			if o != t && directBefore(o, t) {
 				ok = false
 			}
 		}
@@ -419,7 +494,7 @@ type childInfo struct {
 	key   string
 	e     int
 	prios []int32
-	last  time.Time
+	last  span
 }
 
 // cmpChildren compares the scores of two children; 2 = ambiguous.
@@ -441,16 +516,16 @@ func cmpChildren(a, b *childInfo) int {
 // less recently.
 func definitelyBefore(o, c *childInfo) bool {
 	r := cmpChildren(o, c)
-	return r == -1 || (r == 0 && o.last.Before(c.last))
+	return r == -1 || (r == 0 && o.last.hi.Before(c.last.lo))
 }
 
 // queuedChildSet returns the keys of the child invocations of path that have
 // queued operations.
 func queuedChildSet(q *mScq, path []string) map[string]bool {
 	childSet := map[string]bool{}
-	for _, t := range q.queued {
-		if hasPrefixPath(t.path, path) && len(t.path) > len(path) {
-			childSet[t.path[len(path)]] = true
+	for _, o := range q.queued {
+		if hasPrefixPath(o.path, path) && len(o.path) > len(path) {
+			childSet[o.path[len(path)]] = true
 		}
 	}
 	return childSet
@@ -471,9 +546,9 @@ func (m *model) childInfos(pq *mPq, q *mScq, path []string, childSet map[string]
 		cands := m.admissible(pq, q, nil, cp, false)
 		if m.loosePrio {
 			cands = nil
-			for _, t := range q.queued {
-				if hasPrefixPath(t.path, cp) {
-					cands = append(cands, t)
+			for _, o := range q.queued {
+				if hasPrefixPath(o.path, cp) {
+					cands = append(cands, o)
 				}
 			}
 		}
@@ -488,30 +563,36 @@ func (m *model) childInfos(pq *mPq, q *mScq, path []string, childSet map[string]
 	return children
 }
 
-// directBefore: the documented order of operations queued in one invocation.
-func directBefore(a, b *mTask) bool {
+// age of a queued operation: the time its task was queued, or - for an
+// operation attached later by in-flight deduplication - possibly the time of
+// its own Execute call ("oldest" is not defined more precisely).
+func (o *mOp) age() span { return span{o.t.queuedAt, o.at} }
+
+// directBefore: the documented order of operations queued in one invocation
+// (true only when a definitely goes before b).
+func directBefore(a, b *mOp) bool {
 	if a.prio != b.prio {
 		return a.prio < b.prio
 	}
-	if a.dur != b.dur {
-		return a.dur > b.dur
+	if a.t.dur != b.t.dur {
+		return a.t.dur > b.t.dur
 	}
-	return a.queuedAt.Before(b.queuedAt)
+	return a.age().hi.Before(b.age().lo)
 }
 
-// admissible returns the tasks the policy allows to be handed to worker w
-// (nil w: no stickiness) from the subtree at path.
-func (m *model) admissible(pq *mPq, q *mScq, w *mWorker, path []string, sticky bool) []*mTask {
-	var direct []*mTask
+// admissible returns the queued operations the policy allows to be handed to
+// worker w (nil w: no stickiness) from the subtree at path.
+func (m *model) admissible(pq *mPq, q *mScq, w *mWorker, path []string, sticky bool) []*mOp {
+	var direct []*mOp
 	childSet := map[string]bool{}
-	for _, t := range q.queued {
-		if !hasPrefixPath(t.path, path) {
+	for _, o := range q.queued {
+		if !hasPrefixPath(o.path, path) {
 			continue
 		}
-		if len(t.path) == len(path) {
-			direct = append(direct, t)
+		if len(o.path) == len(path) {
+			direct = append(direct, o)
 		} else {
-			childSet[t.path[len(path)]] = true
+			childSet[o.path[len(path)]] = true
 		}
 	}
 	if len(direct) > 0 {
@@ -539,7 +620,9 @@ func (m *model) admissible(pq *mPq, q *mScq, w *mWorker, path []string, sticky b
 		}
 	}
 	// Stickiness: within the window of this level, the invocation the
-	// worker last served wins a tie (and only a tie).
+	// worker last served wins a tie (and only a tie). The window starts
+	// when the worker started serving that invocation and is not
+	// restarted by continuing to serve it.
 	level := len(path)
 	if sticky && w != nil && w.hasLast && level < len(w.lastPath) && level < len(pq.limits) {
 		var s *childInfo
@@ -548,7 +631,14 @@ func (m *model) admissible(pq *mPq, q *mScq, w *mWorker, path []string, sticky b
 				s = c
 			}
 		}
-		if s != nil && (m.ignoreWindow || w.stick[level].Add(pq.limits[level]).After(m.now)) {
+		// The starting time may be set-valued (see assign): the window
+		// is certainly open, possibly open, or closed.
+		certainly := w.stick[level].lo.Add(pq.limits[level]).After(m.now)
+		possibly := w.stick[level].hi.Add(pq.limits[level]).After(m.now)
+		if m.ignoreWindow {
+			certainly, possibly = true, true
+		}
+		if s != nil && possibly {
 			tie, ambiguous := true, false
 			for _, o := range children {
 				if o == s {
@@ -561,9 +651,9 @@ func (m *model) admissible(pq *mPq, q *mScq, w *mWorker, path []string, sticky b
 					ambiguous = true
 				}
 			}
-			if tie && !ambiguous {
+			if tie && !ambiguous && certainly {
 				chosen = []*childInfo{s}
-			} else if tie && ambiguous {
+			} else if tie {
 				in := false
 				for _, c := range chosen {
 					if c == s {
@@ -576,7 +666,7 @@ func (m *model) admissible(pq *mPq, q *mScq, w *mWorker, path []string, sticky b
 			}
 		}
 	}
-	var res []*mTask
+	var res []*mOp
 	for _, c := range chosen {
 		cp := append(append([]string(nil), path...), c.key)
 		s2 := sticky && w != nil && w.hasLast && level < len(w.lastPath) && level < len(pq.limits) && w.lastPath[level] == c.key
@@ -585,32 +675,53 @@ func (m *model) admissible(pq *mPq, q *mScq, w *mWorker, path []string, sticky b
 	return res
 }
 
-// assign records that worker w starts task t.
-func (m *model) assign(pq *mPq, q *mScq, w *mWorker, t *mTask, fromQueue bool) {
-	retained := 0
-	if fromQueue && w.hasLast {
-		retained = commonPrefixLen(w.lastPath, t.path)
-		if retained > len(pq.limits) {
-			retained = len(pq.limits)
-		}
-	}
-	for i := retained; i < len(w.stick); i++ {
-		w.stick[i] = m.now
-	}
-	if fromQueue {
-		for i, o := range q.queued {
-			if o == t {
-				q.queued = append(q.queued[:i:i], q.queued[i+1:]...)
-				break
+// assign records that worker w starts task t. via lists the invocations
+// through which the policy could have reached the task (only for a task taken
+// from the queue).
+func (m *model) assign(pq *mPq, q *mScq, w *mWorker, t *mTask, via [][]string) {
+	// Levels of the worker's last invocation it keeps serving: their
+	// windows continue, those of the other levels start now. With several
+	// admissible routes to a task that is part of several invocations the
+	// number of kept levels is only known to lie between two values.
+	rmin, rmax := 0, 0
+	if w.hasLast {
+		for n, p := range via {
+			r := commonPrefixLen(w.lastPath, p)
+			if r > len(pq.limits) {
+				r = len(pq.limits)
+			}
+			if n == 0 || r < rmin {
+				rmin = r
+			}
+			if n == 0 || r > rmax {
+				rmax = r
 			}
 		}
+	}
+	for i := rmin; i < len(w.stick); i++ {
+		if i >= rmax {
+			w.stick[i] = at(m.now)
+		} else {
+			w.stick[i].hi = m.now
+		}
+	}
+	if via != nil {
+		kept := q.queued[:0:0]
+		for _, o := range q.queued {
+			if o.t != t {
+				kept = append(kept, o)
+			}
+		}
+		q.queued = kept
 	}
 	t.state = tExecuting
 	t.worker = w.name
 	w.task = t
 	w.hasLast = false
 	w.lastPath = nil
-	m.touchNodes(q, t.path, true)
+	for _, o := range t.ops {
+		m.touchNodes(q, o.path, true)
+	}
 	m.gc(q)
 }
 
@@ -618,14 +729,23 @@ func (m *model) assign(pq *mPq, q *mScq, w *mWorker, t *mTask, fromQueue bool) {
 // worker that last served the most closely related invocation, or queueing.
 func (m *model) schedule(q *mScq, t *mTask) {
 	t.scq = q.key
-	m.touchNodes(q, t.path, false)
+	for _, o := range t.ops {
+		o.attached = false
+		m.touchNodes(q, o.path, false)
+	}
 	best := -1
 	var set []string
 	for _, w := range q.sortedWorkers() {
 		if !w.waiting(q) {
 			continue
 		}
-		cp := commonPrefixLen(w.lastPath, t.path)
+		cp := 0
+		if len(t.ops) == 1 {
+			cp = commonPrefixLen(w.lastPath, t.ops[0].path)
+		}
+		// A task that is part of several invocations (retry of a
+		// deduplicated task): "most closely related" is not defined;
+		// every waiting worker is accepted.
 		if cp > best {
 			best = cp
 			set = nil
@@ -640,7 +760,7 @@ func (m *model) schedule(q *mScq, t *mTask) {
 	} else {
 		t.state = tQueued
 		t.queuedAtFix(m.now)
-		q.queued = append(q.queued, t)
+		q.queued = append(q.queued, t.ops...)
 	}
 }
 
@@ -652,15 +772,47 @@ func (t *mTask) queuedAtFix(now time.Time) {
 	}
 }
 
+// inFlight returns the task against which a request for the action hash is
+// deduplicated: the task of that action which is queued or executing.
+func (m *model) inFlight(hash string) *mTask {
+	if t := m.tasks[hash]; t != nil && t.state != tDone {
+		return t
+	}
+	return nil
+}
+
 // execute mirrors an Execute call: returns the expected rejection code, or
-// codes.OK when the request must be accepted.
-func (m *model) execute(t *mTask) codes.Code {
+// codes.OK when the request must be accepted, and the task the request ends
+// up waiting for (t itself, or the in-flight task of the same action).
+func (m *model) execute(t *mTask) (codes.Code, *mTask) {
+	req := t.ops[0]
+	if old := m.inFlight(t.hash); old != nil {
+		// In-flight deduplication: no new task. The requesting
+		// invocation becomes part of the existing task, unless it
+		// already is.
+		q := m.scq(old.scq)
+		if old.opAt(req.path) != nil {
+			return codes.OK, old
+		}
+		o := &mOp{t: old, path: req.path, prio: req.prio, at: m.now}
+		old.ops = append(old.ops, o)
+		if old.state == tQueued {
+			m.touchNodes(q, o.path, false)
+			q.queued = append(q.queued, o)
+		} else {
+			// The task is executing: its worker now also is an
+			// executing worker of the requesting invocation.
+			o.attached = true
+			m.attachNodes(q, o.path)
+		}
+		return codes.OK, old
+	}
 	pq := m.route(t.inst, t.platform)
 	if pq == nil {
 		if m.now.Before(m.start.Add(m.qt)) {
-			return codes.Unavailable
+			return codes.Unavailable, t
 		}
-		return codes.FailedPrecondition
+		return codes.FailedPrecondition, t
 	}
 	scs := pq.sizeClasses()
 	i := t.scIdx
@@ -669,9 +821,10 @@ func (m *model) execute(t *mTask) codes.Code {
 	}
 	t.selLargest = i == len(scs)-1
 	t.queuedAt = m.now
+	req.at = m.now
 	m.tasks[t.hash] = t
 	m.schedule(pq.scqs[scs[i]], t)
-	return codes.OK
+	return codes.OK, t
 }
 
 const (
@@ -709,7 +862,7 @@ func (m *model) preSync(w *mWorker, kind int) {
 		w.hasLast = true
 		w.lastPath = nil
 		w.terminating = false
-		w.stick = make([]time.Time, len(pq.limits))
+		w.stick = make([]span, len(pq.limits))
 		q.workers[w.name] = w
 	}
 	w.hasCleanup = false
@@ -721,7 +874,9 @@ func (m *model) preSync(w *mWorker, kind int) {
 	// The worker reports completion of its task.
 	w.task = nil
 	w.hasLast = true
-	w.lastPath = append([]string(nil), t.path...)
+	// The invocation the worker last served: for a task that is part of
+	// several invocations, the deepest one they have in common.
+	w.lastPath = t.commonPath()
 	if kind == syncCompleteFail && !t.selLargest {
 		// Retry on the largest size class that exists now.
 		scs := pq.sizeClasses()
@@ -790,26 +945,26 @@ func (m *model) received(w *mWorker, hash, suffix string) {
 			}
 		}
 		if !ok {
-			m.fail("C04", "handover-not-closest", "task %s (invocation %v) arriving while workers %v were the most closely related waiting ones was handed to %s (last served %v)", t.letter, t.path, t.handSet, w.name, w.lastPath)
+			m.fail("C04", "handover-not-closest", "task %s (invocation %v) arriving while workers %v were the most closely related waiting ones was handed to %s (last served %v)", t.letter, t.paths(), t.handSet, w.name, w.lastPath)
 			return
 		}
-		m.assign(pq, q, w, t, false)
+		m.assign(pq, q, w, t, nil)
 	case tQueued:
 		adm := m.admissible(pq, q, w, nil, true)
-		ok := false
+		var via [][]string
 		var names []string
 		for _, a := range adm {
-			names = append(names, a.letter+"#"+a.hash[:6])
-			if a == t {
-				ok = true
+			names = append(names, a.t.letter+"#"+a.t.hash[:6]+"@"+pathStr(a.path))
+			if a.t == t {
+				via = append(via, a.path)
 			}
 		}
-		if !ok {
+		if len(via) == 0 {
 			// Classify the deviation for the fingerprint.
 			kind := "other"
-			in := func(l []*mTask) bool {
+			in := func(l []*mOp) bool {
 				for _, a := range l {
-					if a == t {
+					if a.t == t {
 						return true
 					}
 				}
@@ -820,7 +975,11 @@ func (m *model) received(w *mWorker, hash, suffix string) {
 			m.ignoreWindow = false
 			level := 0
 			if len(adm) > 0 {
-				level = commonPrefixLen(adm[0].path, t.path)
+				for _, o := range t.ops {
+					if l := commonPrefixLen(adm[0].path, o.path); l > level {
+						level = l
+					}
+				}
 			}
 			if in(m.admissible(pq, q, nil, nil, false)) {
 				kind = fmt.Sprintf("stickiness-ignored/level%d", level)
@@ -830,28 +989,41 @@ func (m *model) received(w *mWorker, hash, suffix string) {
 				m.loosePrio = true
 				loose := m.admissible(pq, q, w, nil, true)
 				m.loosePrio = false
+				m.ignoreAttached = true
+				unattached := m.admissible(pq, q, w, nil, true)
+				m.ignoreAttached = false
 				if in(loose) {
 					// Explained by scoring a nested invocation with the
 					// priority of another of its queued operations than
 					// the one it would hand out next.
 					kind = "nested-priority-not-of-next-operation"
+				} else if in(unattached) {
+					// Explained by not counting workers whose task the
+					// invocation joined through in-flight deduplication.
+					kind = "executing-workers-without-deduplicated"
 				}
 			}
-			m.fail("C04", "order/"+kind, "worker %s (last served %v, stickiness started %v ago, limits %v) received %s#%s (invocation %v prio %d dur %v queued@%v), but the documented policy prescribes one of %v; queue: %s",
-				w.name, w.lastPath, m.ages(w.stick), pq.limits, t.letter, t.hash[:6], t.path, t.prio, t.dur, t.queuedAt.Sub(m.start), names, m.dumpQueue(q))
+			op := t.ops[0]
+			m.fail("C04", "order/"+kind, "worker %s (last served %v, stickiness started %v ago, limits %v) received %s#%s (invocations %v prio %d dur %v queued@%v), but the documented policy prescribes one of %v; queue: %s",
+				w.name, w.lastPath, m.ages(w.stick), pq.limits, t.letter, t.hash[:6], t.paths(), op.prio, t.dur, t.queuedAt.Sub(m.start), names, m.dumpQueue(q))
 			return
 		}
-		m.assign(pq, q, w, t, true)
+		m.assign(pq, q, w, t, via)
 	}
 }
 
-func (m *model) ages(l []time.Time) []string {
+func (m *model) ages(l []span) []string {
 	var r []string
 	for _, t := range l {
-		if t.IsZero() {
+		switch {
+		case t.lo.IsZero() && t.hi.IsZero():
 			r = append(r, "never")
-		} else {
-			r = append(r, m.now.Sub(t).String())
+		case t.lo.Equal(t.hi):
+			r = append(r, m.now.Sub(t.lo).String())
+		case t.lo.IsZero():
+			r = append(r, "never|"+m.now.Sub(t.hi).String())
+		default:
+			r = append(r, m.now.Sub(t.lo).String()+"|"+m.now.Sub(t.hi).String())
 		}
 	}
 	return r
@@ -859,13 +1031,18 @@ func (m *model) ages(l []time.Time) []string {
 
 func (m *model) dumpQueue(q *mScq) string {
 	var b strings.Builder
-	for _, t := range q.queued {
-		fmt.Fprintf(&b, "[%s#%s %v p%d d%v q@%v]", t.letter, t.hash[:6], t.path, t.prio, t.dur, t.queuedAt.Sub(m.start))
+	for _, o := range q.queued {
+		t := o.t
+		fmt.Fprintf(&b, "[%s#%s %v p%d d%v q@%v", t.letter, t.hash[:6], o.path, o.prio, t.dur, t.queuedAt.Sub(m.start))
+		if !o.at.Equal(t.queuedAt) {
+			fmt.Fprintf(&b, " joined@%v", o.at.Sub(m.start))
+		}
+		b.WriteString("]")
 	}
 	b.WriteString(" executing:")
 	for _, w := range q.sortedWorkers() {
 		if w.task != nil {
-			fmt.Fprintf(&b, "[%s:%v]", w.name, w.task.path)
+			fmt.Fprintf(&b, "[%s:%s]", w.name, w.task.paths())
 		}
 	}
 	b.WriteString(" lastStarted:")
@@ -875,7 +1052,12 @@ func (m *model) dumpQueue(q *mScq) string {
 	}
 	sort.Strings(ks)
 	for _, k := range ks {
-		fmt.Fprintf(&b, "[%s@%v]", k, q.nodes[k].Sub(m.start))
+		n := q.nodes[k]
+		if n.lo.Equal(n.hi) {
+			fmt.Fprintf(&b, "[%s@%v]", k, n.lo.Sub(m.start))
+		} else {
+			fmt.Fprintf(&b, "[%s@%v|%v]", k, n.lo.Sub(m.start), n.hi.Sub(m.start))
+		}
 	}
 	return b.String()
 }
@@ -889,6 +1071,31 @@ func (m *model) key() string {
 			return "z"
 		}
 		return fmt.Sprint(int64(t.Sub(m.now) / tickUnit))
+	}
+	relSpan := func(s span) string {
+		if s.lo.Equal(s.hi) {
+			return rel(s.lo)
+		}
+		return rel(s.lo) + "|" + rel(s.hi)
+	}
+	// Expected duration and ages only matter while a task is queued.
+	task := func(t *mTask, queued bool) string {
+		var l []string
+		for _, o := range t.ops {
+			e := fmt.Sprintf("%s p%d", pathStr(o.path), o.prio)
+			if queued && !o.at.Equal(t.queuedAt) {
+				e += " +" + rel(o.at)
+			}
+			if o.attached {
+				e += "a"
+			}
+			l = append(l, e)
+		}
+		r := fmt.Sprintf("%s S%s [%s] i%d L%v", t.inst, t.share, strings.Join(l, ","), t.scIdx, t.selLargest)
+		if queued {
+			r += fmt.Sprintf(" d%d @%s", t.dur/tickUnit, rel(t.queuedAt))
+		}
+		return r
 	}
 	grace := m.start.Add(m.qt).Sub(m.now)
 	if grace < 0 {
@@ -910,8 +1117,14 @@ func (m *model) key() string {
 			}
 			sort.Strings(ds)
 			fmt.Fprintf(&b, " D%v Q[", ds)
-			for _, t := range q.queued {
-				fmt.Fprintf(&b, "(%s %s p%d d%d @%s i%d L%v)", t.inst, pathStr(t.path), t.prio, t.dur/tickUnit, rel(t.queuedAt), t.scIdx, t.selLargest)
+			// Queued tasks in order of arrival of their first queued
+			// operation; the operations of one task together.
+			seen := map[*mTask]bool{}
+			for _, o := range q.queued {
+				if !seen[o.t] {
+					seen[o.t] = true
+					fmt.Fprintf(&b, "(%s)", task(o.t, true))
+				}
 			}
 			b.WriteString("] N[")
 			var ks []string
@@ -920,7 +1133,7 @@ func (m *model) key() string {
 			}
 			sort.Strings(ks)
 			for _, k := range ks {
-				fmt.Fprintf(&b, "%s@%s,", k, rel(q.nodes[k]))
+				fmt.Fprintf(&b, "%s@%s,", k, relSpan(q.nodes[k]))
 			}
 			b.WriteString("] W[")
 			for _, w := range q.sortedWorkers() {
@@ -929,13 +1142,13 @@ func (m *model) key() string {
 					fmt.Fprintf(&b, " cl@%s", rel(w.cleanupAt))
 				}
 				if t := w.task; t != nil {
-					fmt.Fprintf(&b, " X(%s %s p%d i%d L%v)", t.inst, pathStr(t.path), t.prio, t.scIdx, t.selLargest)
+					fmt.Fprintf(&b, " X(%s)", task(t, false))
 				}
 				if w.hasLast {
 					fmt.Fprintf(&b, " last=%s", pathStr(w.lastPath))
 				}
 				for _, s := range w.stick {
-					fmt.Fprintf(&b, " s%s", rel(s))
+					fmt.Fprintf(&b, " s%s", relSpan(s))
 				}
 				b.WriteString(")")
 			}
